@@ -15,15 +15,16 @@ def confirm(prop, x):
     demo='tests/seeded_demo.rs'
     os.makedirs(wt+'/tests', exist_ok=True)
     shutil.copy(out+'/demo.rs', wt+'/'+demo)
+    feat = ' --features verif' if 'features verif' in open(out+'/demo.rs').read() else ''
     # without the patch: demo passes
-    rc0,o0=sh('cargo test --offline --test seeded_demo 2>&1 | tail -15', wt)
+    rc0,o0=sh('cargo test --offline --test seeded_demo'+feat+' 2>&1 | tail -15', wt)
     pass_without = 'test result: ok' in o0 and 'FAILED' not in o0
     sh('git apply %s/patch.diff'%out, wt)
     rc1,o1=sh('cargo test --offline --lib 2>&1 | grep -E "^test result"', wt)
     suite_ok = 'ok. 131 passed; 0 failed' in o1
     rc2,o2=sh('cargo test --offline --doc 2>&1 | grep -E "^test result"', wt)
     doc_ok = '0 failed' in o2
-    rc3,o3=sh('cargo test --offline --test seeded_demo 2>&1 | tail -15', wt)
+    rc3,o3=sh('cargo test --offline --test seeded_demo'+feat+' 2>&1 | tail -15', wt)
     fail_with = 'FAILED' in o3 or 'failed' in o3
     sh('git checkout -- . && git clean -fdq -e OUT', wt)
     res=dict(ok=pass_without and suite_ok and doc_ok and fail_with, demo_passes_without_patch=pass_without, suite_passes_with_patch=suite_ok,
